@@ -147,6 +147,7 @@ func TestVerifV2Conc(t *testing.T) {
 	}
 	VerifSink = nil
 	v2AloneVsConcurrent(vt)
+	v2ColdDictionaryWords(vt)
 	vt.emit(map[string]interface{}{"ev": "diffcalls", "shared": shared, "private": private})
 	if os.Getenv("VERIF_DEBUG") != "" {
 		fmt.Fprintf(os.Stderr, "diffcalls shared=%d private=%d\n", shared, private)
@@ -226,6 +227,35 @@ func v2AloneVsConcurrent(vt *v2T) {
 					}
 				}
 			}(g)
+		}
+		wg.Wait()
+	}
+}
+
+// words that Normalize has registered in the dictionary but that no corpus document contains, met for the first time by
+// several calls at once -- on a fresh classifier each time, so that whatever is built on first sight is built by racing calls
+func v2ColdDictionaryWords(vt *v2T) {
+	_, ins := v2AloneCorpus()
+	novel := "quuxification frobnicated snarkly wibbling blorptastic zorblefied crumhorned"
+	in := append([]byte(novel+"\n"), ins[0]...)
+	ref, _ := v2AloneCorpus()
+	ref.Normalize([]byte(novel))
+	want := v2AloneShow(ref.Match(in))
+	var mu sync.Mutex
+	for round := 0; round < 6; round++ {
+		c, _ := v2AloneCorpus()
+		c.Normalize([]byte(novel + " and more unheardofwordage"))
+		var wg sync.WaitGroup
+		for g := 0; g < 8; g++ {
+			wg.Add(1)
+			go func() {
+				defer wg.Done()
+				if got := v2AloneShow(c.Match(in)); got != want {
+					mu.Lock()
+					vt.emit(map[string]interface{}{"ev": "fault", "why": fmt.Sprintf("novel dictionary words, concurrent first sight: %s, sequentially %s", got, want)})
+					mu.Unlock()
+				}
+			}()
 		}
 		wg.Wait()
 	}
